@@ -13,6 +13,7 @@ import (
 
 	"github.com/willabides/rjson"
 	"github.com/willabides/rjson/verifhook"
+	"github.com/willabides/rjson/verifhook/vatomic"
 	"github.com/willabides/rjson/verifhook/vsync"
 
 	"verifharness/eng"
@@ -67,7 +68,46 @@ var (
 	inNull     = []byte(`null `)
 	inUTF8     = []byte("a\xffb\xe2\x82c")
 	inDeep     = []byte(strings.Repeat("[", 30) + "1.5" + strings.Repeat("]", 30))
+	// documents whose top-level value is a scalar (no child reader involved)
+	inTopStr1 = []byte(`"` + strings.Repeat("c", 600) + "\\" + `n` + strings.Repeat("c", 600) + `"`)
+	inTopStr2 = []byte(`"` + strings.Repeat("g", 600) + "\\" + `t` + strings.Repeat("g", 600) + `"`)
+	inTopNum  = []byte(`12.5`)
+	// many distinct escaped member names (any table keyed by name has collisions across the two)
+	inKeysA = manyEscapedKeys("a", 1100)
+	inKeysB = manyEscapedKeys("b", 1100)
 )
+
+func manyEscapedKeys(tag string, n int) []byte {
+	var b strings.Builder
+	b.WriteString("{")
+	for i := 0; i < n; i++ {
+		if i > 0 {
+			b.WriteString(",")
+		}
+		fmt.Fprintf(&b, `"k%s%s%05d":%d`, U("00e9"), tag, i, i)
+	}
+	b.WriteString("}")
+	return []byte(b.String())
+}
+
+// checkManyKeys summarises a decoded many-keys object without formatting it.
+func checkManyKeys(v map[string]interface{}, tag string, n int) int {
+	ok := 0
+	buf := make([]byte, 0, 16)
+	for i := 0; i < n; i++ {
+		buf = append(buf[:0], "k\u00e9"...)
+		buf = append(buf, tag...)
+		d := [5]byte{'0', '0', '0', '0', '0'}
+		for j, x := 4, i; j >= 0; j, x = j-1, x/10 {
+			d[j] = byte('0' + x%10)
+		}
+		buf = append(buf, d[:]...)
+		if f, is := v[string(buf)].(float64); is && int(f) == i {
+			ok++
+		}
+	}
+	return ok
+}
 
 // sharedInputs lists every shared input with a pristine copy: inputs are restored before each
 // explored execution and compared afterwards (a write to a shared read-only input is a data race
@@ -85,7 +125,8 @@ var sharedInputs = func() []struct {
 	mk := func(n string, b []byte) in { return in{n, b, append([]byte(nil), b...)} }
 	return []in{mk("inDoc", inDoc), mk("inDoc2", inDoc2), mk("inDoc3", inDoc3), mk("inDoc4", inDoc4), mk("inBad", inBad), mk("inBadFast", inBadFast),
 		mk("inFloatF", inFloatF), mk("inFloatEL", inFloatEL), mk("inFloatS1", inFloatS1), mk("inFloatS2", inFloatS2), mk("inFloatOv", inFloatOv), mk("inInt", inInt), mk("inUint", inUint),
-		mk("inStrEsc", inStrEsc), mk("inStrPair1", inStrPair1), mk("inStrPair2", inStrPair2), mk("inLit", inLit), mk("inNull", inNull), mk("inUTF8", inUTF8), mk("inDeep", inDeep), mk("inDeep6000", inDeep6000), mk("inFields", inFields)}
+		mk("inStrEsc", inStrEsc), mk("inStrPair1", inStrPair1), mk("inStrPair2", inStrPair2), mk("inLit", inLit), mk("inNull", inNull), mk("inUTF8", inUTF8), mk("inDeep", inDeep), mk("inDeep6000", inDeep6000), mk("inFields", inFields),
+		mk("inTopStr1", inTopStr1), mk("inTopStr2", inTopStr2), mk("inTopNum", inTopNum), mk("inKeysA", inKeysA), mk("inKeysB", inKeysB)}
 }()
 
 func restoreInputs() {
@@ -194,6 +235,32 @@ func concTemplates() []concTemplate {
 				return 0, nil
 			}), nil)
 			return f("%q %d %v", out, p, err)
+		}},
+		{"ReadValue(top-level string 1)", func() string {
+			v, p, err := rjson.ReadValue(inTopStr1)
+			s, _ := v.(string)
+			return f("%d %d %d %v", len(s), strings.Count(s, "c"), p, err)
+		}},
+		{"ReadValue(top-level string 2)", func() string {
+			v, p, err := rjson.ReadValue(inTopStr2)
+			s, _ := v.(string)
+			return f("%d %d %d %v", len(s), strings.Count(s, "g"), p, err)
+		}},
+		{"ReadValue(top-level scalars)", func() string {
+			v1, p1, e1 := rjson.ReadValue(inTopNum)
+			v2, p2, e2 := rjson.ReadValue(inLit)
+			v3, p3, e3 := rjson.ReadValue(inNull)
+			v4, p4, e4 := rjson.ReadValue(inStrEsc)
+			return f("%v %d %v|%v %d %v|%v %d %v|%v %d %v", v1, p1, e1, v2, p2, e2, v3, p3, e3, v4, p4, e4)
+		}},
+		{"ReadObject(1100 escaped keys a)", func() string {
+			v, p, err := rjson.ReadObject(inKeysA)
+			return f("%d %d %d %v", len(v), checkManyKeys(v, "a", 1100), p, err)
+		}},
+		{"ReadValue(1100 escaped keys b)", func() string {
+			v, p, err := rjson.ReadValue(inKeysB)
+			m, _ := v.(map[string]interface{})
+			return f("%d %d %d %v", len(m), checkManyKeys(m, "b", 1100), p, err)
 		}},
 		{"ReadObject(doc4)", func() string { v, p, err := rjson.ReadObject(inDoc4); return f("%v %d %v", v, p, err) }},
 		{"HandleObjectValues(doc,ValueReader)", func() string {
@@ -329,10 +396,12 @@ func runScheduled(ts []concTemplate, idx []int, c *eng.Chooser) schedResult {
 		s.Point()
 	}
 	handlerPoint = s.Point
+	vatomic.Point = s.Point
 	vsync.Yield = s.Yield
 	vsync.LockOp = func(m *vsync.Mutex, lock bool) { s.LockOp(m, lock) }
 	defer func() {
 		verifhook.Sched, vsync.Point, vsync.Yield, vsync.LockOp = nil, nil, nil, nil
+		vatomic.Point = nil
 		handlerPoint = func() {}
 	}()
 	bodies := make([]func(), len(idx))
@@ -480,7 +549,11 @@ func c18(r *eng.Run) {
 				explore([]int{i, j}, 1)
 			} else if conflict(alone[i], alone[j]) {
 				conflicting++
-				explore([]int{i, j}, bound)
+				if alone[i].pts+alone[j].pts > 1500 {
+					explore([]int{i, j}, 1) // thousands of points per execution: one preemption, thinned
+				} else {
+					explore([]int{i, j}, bound)
+				}
 			} else if (i*7+j*3)%23 == int(r.Seed%23) && fixed < 20 && alone[i].pts+alone[j].pts < 400 {
 				fixed++
 				explore([]int{i, j}, bound)
@@ -611,5 +684,24 @@ func c18Race(r *eng.Run) {
 			}
 		}
 		r.Violation(eng.Replay{Engine: "race", Entry: "free-running templates", Sig: sig, Expected: "no data race between calls that share only read-only input", Got: excerpt})
+	}
+	// every template returns normally when run alone (phase A); a Go panic or a runtime fatal
+	// error about concurrent map access in the free-running pass therefore comes from concurrency
+	if !strings.Contains(text, "RACE-CHILD-DONE") {
+		for _, mark := range []string{"panic: ", "fatal error: concurrent map"} {
+			if i := strings.Index(text, mark); i >= 0 {
+				excerpt := text[i:]
+				if len(excerpt) > 1500 {
+					excerpt = excerpt[:1500]
+				}
+				first := excerpt
+				if j := strings.Index(first, "\n"); j > 0 {
+					first = first[:j]
+				}
+				r.Violation(eng.Replay{Engine: "race", Entry: "free-running templates", Sig: "crash/" + first, Expected: "concurrent calls return what they return sequentially", Got: excerpt})
+				return
+			}
+		}
+		r.Inexhaustive("the free-running race pass did not complete (timeout or resource limit)")
 	}
 }
